@@ -168,6 +168,11 @@ class SocketWrapper:
                     # premature end of chunk bytes
                     partial = length_bytes + chunk
                     break
+                crlf = instream.readline()
+                if crlf[-2:] != b"\r\n":
+                    # premature end of CRLF terminating chunk bytes
+                    partial = length_bytes + chunk + crlf
+                    break
                 try:
                     if self._encoding & ENCODE_GZIP:
                         chunk = decompress(chunk, wbits=MAX_WBITS | 16)
@@ -179,9 +184,8 @@ class SocketWrapper:
                     self.logger.error(f"Error decompressing data: {err}")
                     # parser will discard data
                 chunks += chunk
-
-            instream.readline()
-            if chunk_length == 0:
+            else:
+                instream.readline()
                 # final chunk
                 break
 
